@@ -31,6 +31,12 @@ def scenario(big: bool = False) -> Any:
     def fin(d: Dict[str, Any]) -> Dict[str, Any]:
         msgs = cm.sort_msgs(d["msgs"])
         A = d["A"]
+        if d.pop("park"):
+            # all but the last of the history's waiting functions wait on a future that nothing but the function itself holds strongly
+            # (a reply kept in a weak registry); a garbage-collection pass runs before each is woken up (see the harness)
+            cand = [m for m in msgs if m["kind"] == "async" and m["dur"] and m.get("timeout") is None]
+            for m in cand[:-1] or cand:
+                m["parked"] = True
         hist_end = cm.r9(max([m["at"] for m in msgs], default=0.0) + sum(m["dur"] for m in msgs) + 0.3 * len(msgs) + 1.0)
         gap = d.pop("probe_gap")
         for k in range(A):
@@ -76,6 +82,7 @@ def scenario(big: bool = False) -> Any:
         "probe_gap": st.sampled_from([0.0, 0.0, 0.05]),
         "via_api": st.sampled_from([False, False, False, True]),
         "eager_tasks": st.sampled_from([False, False, False, True]),
+        "park": st.sampled_from([False, False, False, True]),
         "hook_exc": st.sampled_from(["RuntimeError", "RuntimeError", "BadStrError"]),      # what a failing hook raises: printable or not
     }).map(fin)
 
